@@ -56,7 +56,39 @@ fn c15_panic() {
     println!("C15: second cancel with enqueuer_tail==0 -> {:?}", r.map_err(|_| "PANIC (attempt to subtract with overflow)"));
 }
 
+
+struct CountWaker(std::sync::atomic::AtomicU32);
+impl Wake for CountWaker { fn wake(self: Arc<Self>) { self.0.fetch_add(1, std::sync::atomic::Ordering::SeqCst); } fn wake_by_ref(self: &Arc<Self>) { self.0.fetch_add(1, std::sync::atomic::Ordering::SeqCst); } }
+
+/// single-threaded, deterministic lost wake-up on the movable atomic Uni channel (MAX_STREAMS = 1)
+fn c04_lost_wakeup() {
+    use std::sync::atomic::Ordering::SeqCst;
+    let channel: &'static _ = Box::leak(Box::new(ChannelUniMoveAtomic::<u32, 8, 1>::new("c04")));
+    let (mut stream, _) = channel.create_stream();
+    let cw = Arc::new(CountWaker(0.into())); let w = cw.clone().into(); let mut cx = Context::from_waker(&w);
+    let nw = Arc::new(NoopWaker).into(); let mut ncx = Context::from_waker(&nw);
+    assert!(Pin::new(&mut stream).poll_next(&mut cx).is_pending());            // consumer parks (registers waker; self-wake #1)
+    let base = cw.0.load(SeqCst);
+    let (tx1, rx1) = futures::channel::oneshot::channel::<u32>();
+    let (tx2, rx2) = futures::channel::oneshot::channel::<u32>();
+    let mut f1 = Box::pin(channel.send_with_async(|slot| async move { *slot = rx1.await.unwrap(); slot }));
+    let mut f2 = Box::pin(channel.send_with_async(|slot| async move { *slot = rx2.await.unwrap(); slot }));
+    assert!(f1.as_mut().poll(&mut ncx).is_pending());                          // producer 1 reserved slot #0 (len_before = 0), suspended
+    assert!(f2.as_mut().poll(&mut ncx).is_pending());                          // producer 2 reserved slot #1 (len_before = 1), suspended
+    tx1.send(10).unwrap();
+    assert!(f1.as_mut().poll(&mut ncx).is_ready());                            // producer 1 publishes, wakes stream #0
+    println!("C04: wakes after 1st publication: {}", cw.0.load(SeqCst) - base);
+    println!("C04: consumer polled: {:?}", Pin::new(&mut stream).poll_next(&mut cx));   // yields 10
+    println!("C04: consumer polled: {:?}  (parks again)", Pin::new(&mut stream).poll_next(&mut cx));
+    let before = cw.0.load(SeqCst);
+    tx2.send(20).unwrap();
+    let r = f2.as_mut().poll(&mut ncx);                                        // producer 2 publishes: len_before(=1) < MAX_STREAMS(=1) is false -> no wake
+    println!("C04: 2nd send completed ok={}, wakes caused by it: {}, pending_items_count={} -> {}",
+             matches!(r, Poll::Ready(ref rr) if rr.is_ok()), cw.0.load(SeqCst) - before, channel.pending_items_count(),
+             if cw.0.load(SeqCst) == before && channel.pending_items_count() > 0 { "LOST WAKE-UP: accepted event stuck with the consumer parked" } else { "ok" });
+}
+
 fn main() {
     let a = std::env::args().nth(1).unwrap_or_default();
-    match a.as_str() { "c10" => c10_stale(), "c05" => c05_teardown(), "c20f" => c20_hang("fullsync"), "c20a" => c20_hang("atomic"), "c15" => c15_panic(), _ => {} }
+    match a.as_str() { "c10" => c10_stale(), "c05" => c05_teardown(), "c20f" => c20_hang("fullsync"), "c20a" => c20_hang("atomic"), "c15" => c15_panic(), "c04" => c04_lost_wakeup(), _ => {} }
 }
